@@ -149,6 +149,8 @@ func init() {
 						steps = append(steps, "fsync")
 					case callee == "f.Close":
 						steps = append(steps, "close")
+					case callee == "removeStaleSidecars" && arg0 == "opt.OutputPath":
+						steps = append(steps, "rmSidecars")
 					case callee == "os.Rename" && arg0 == "tmpOutputPath" && len(x.Args) == 2 && c.src(x.Args[1]) == "opt.OutputPath":
 						steps = append(steps, "rename")
 					case callee == "internal.FsyncDir":
